@@ -628,6 +628,68 @@ let handle_scope fields =
     end
   | _ -> raise (Parse "bad scope line")
 
+
+(* ---------- family: shape (AST mirrors the derivation, C05) ---------- *)
+let bop_of_int k = L.nth Shape.all_bops k
+let uop_of_int k = L.nth Shape.all_uops k
+let rec parse_mexpr (toks : string list) : Shape.mexpr * string list =
+  match toks with
+  | [] -> raise (Parse "mexpr: empty")
+  | t :: r ->
+    let arg () = int_of_string (String.sub t 1 (String.length t - 1)) in
+    (match t.[0] with
+     | 'i' -> (Shape.XId (n_of_int (arg ())), r)
+     | 'n' -> (Shape.XInt (n_of_int (arg ())), r)
+     | 'b' -> let (l, r1) = parse_mexpr r in let (rr, r2) = parse_mexpr r1 in (Shape.XBin (bop_of_int (arg ()), l, rr), r2)
+     | 'u' -> let (e, r1) = parse_mexpr r in (Shape.XUn (uop_of_int (arg ()), e), r1)
+     | 'x' -> let (b, r1) = parse_mexpr r in let (i, r2) = parse_mexpr r1 in (Shape.XIndex (b, i), r2)
+     | 'c' ->
+       (match r with
+        | f :: r0 ->
+          let (a, r1) = parse_mexpr r0 in
+          if t = "c1" then (Shape.XCall (n_of_string f, a, None), r1)
+          else let (b, r2) = parse_mexpr r1 in (Shape.XCall (n_of_string f, a, Some b), r2)
+        | [] -> raise (Parse "mexpr: call"))
+     | 't' -> let (e, r1) = parse_mexpr r in (Shape.XCast e, r1)
+     | 'p' -> let (e, r1) = parse_mexpr r in (Shape.XParen e, r1)
+     | _ -> raise (Parse ("mexpr token " ^ t)))
+let string_of_codes l = String.concat "" (L.map (fun n -> String.make 1 (Char.chr (int_of_n n))) l)
+let handle_shape fields =
+  match fields with
+  | ["E"; enc; text; impl; orc] ->
+    let toks = words enc in
+    let (e, rest) = parse_mexpr toks in
+    if rest <> [] then raise (Parse "mexpr: trailing tokens");
+    let input = text in
+    count_case input (L.length toks > 1); sample "shape" input impl;
+    if impl = "PANIC" then oracle_fail "shape" input orc
+    else begin
+      (* the text must be the one the Coq printer produces: exactly the parentheses the table requires *)
+      let is_init = is_prefix "int x = " text in
+      let c = if is_init then Shape.CInit else Shape.CStmt in
+      let mtext = string_of_codes (Shape.ctx_text c e) in
+      if mtext <> text then mismatch "shape" input ("text=" ^ text) ("text=" ^ mtext);
+      (* the typed AST read through the accessors is the derivation (source parentheses dropped) *)
+      let expected = String.concat " " (L.filter (fun t -> t <> "p") toks) in
+      if expected <> impl then begin
+        incr oracle_fails;
+        if !oracle_fails <= max_report then
+          report "ORACLE" ["shape"; input; "FAIL C05: typed AST shape " ^ impl ^ " differs from the derivation " ^ expected]
+      end;
+      (* and the pipeline model builds the expected tree for it *)
+      if not (Shape.shape_ok_in c e) then mismatch "shape" input "-" "model tree differs from the expected shape";
+      if is_prefix "FAIL" orc then oracle_fail "shape" input orc
+    end
+  | ["S"; kind; text; impl; expected] ->
+    let input = kind ^ " | " ^ text in
+    count_case input true; sample "shape" input impl;
+    if impl <> expected then begin
+      incr oracle_fails;
+      if !oracle_fails <= max_report then
+        report "ORACLE" ["shape"; input; "FAIL C05: roles " ^ impl ^ " expected " ^ expected]
+    end
+  | _ -> raise (Parse "bad shape line")
+
 (* ---------- main loop ---------- *)
 let () =
   Array.iter (fun a -> if a = "--nodedupe" then dedupe := false) Sys.argv;
@@ -650,6 +712,7 @@ let () =
              | "lit" -> handle_lit fields
              | "use" -> handle_use fields
              | "scope" -> handle_scope fields
+             | "shape" -> handle_shape fields
              | _ -> raise (Parse ("unknown family " ^ fam)))
           with Parse m -> report "DRIVER-ERROR" [m; line]; incr mismatches)
        | [] -> ()
